@@ -2,6 +2,9 @@ module verifharness
 
 go 1.26.8
 
-require go.nanomsg.org/mangos/v3 v3.4.2
+require (
+	github.com/gorilla/websocket v1.5.3
+	go.nanomsg.org/mangos/v3 v3.4.2
+)
 
 replace go.nanomsg.org/mangos/v3 => /repo
